@@ -215,7 +215,7 @@ impl Property for C01 {
         drop(chooser);
         match &exec.verdict {
             ExecVerdict::Completed => {}
-            ExecVerdict::StepLimit => return Verdict::Discard("step limit"),
+            ExecVerdict::StepLimit | ExecVerdict::Halted => return Verdict::Discard("step limit"),
             ExecVerdict::Panic(m) => return fail(format!("panic:{}", m.chars().take(40).collect::<String>()), format!("{} ;; program {:?}", m, prog)),
             ExecVerdict::Stuck { spinners, blocked } => {
                 return fail("stuck", format!("no thread can make progress (spinning {:?}, blocked {:?}) ;; program {:?}", spinners, blocked, prog))
